@@ -169,6 +169,8 @@ def run(repo: Repo, chk: Check):
     chk.rule("R03.e", "constants[k] is the module variable k of types.py, so the folded and the un-folded spelling agree", floor=3)
     chk.rule("R03.f", "the operand coercion _e ends in float(value) and sends HASH(\"...\") spellings through the numeric hash", floor=2)
     chk.rule("R03.g", "a literal replaces an expression only under the node's is_constant flag (or the callee's is_constexpr)", floor=5)
+    chk.rule("R03.k", "every table evaluator reads its operands through a coercion that maps a HASH(\"...\") spelling to its number "
+                      "(whether a hash is spelled symbolically depends on the output mode, the folded value must not)", floor=20)
     chk.rule("R03.i", "in the constness passes the value of an operator node (binary, boolean, comparison, unary) is set only from "
                       "the result of the table evaluator applied to constant operands — never from one operand alone or a literal", floor=3)
     chk.rule("R03.j", "a folded subscript uses the constant list and the constant index exactly as computed (the index is not "
@@ -280,6 +282,7 @@ def run(repo: Repo, chk: Check):
 
     # ------------------------------------------------------------ R03.h
     chk.guarded(r03h, repo, chk)
+    chk.guarded(r03k, repo, chk)
     chk.guarded(r03i, repo, chk)
     chk.guarded(r03j, repo, chk)
 
@@ -415,3 +418,60 @@ def r03j(repo: Repo, chk: Check):
                   f"(fractional indices truncated, negative ones wrapped)", {"redefinitions": bad}, f"{u.path}:{r.lineno} in is_constant")
     if not found:
         raise AnalysisError("R03.j: folded subscript (return True, value[slice]) not found in is_constant")
+
+
+def _normalisers(repo):
+    """Functions of utils.py that turn a HASH("...") spelling into its number."""
+    u = repo.mod("utils")
+    out = set()
+    for name, fn in u.funcs.items():
+        if "." in name:
+            continue
+        src = norm(fn)
+        if "startswith('HASH(\"')" in src and ("compute_hash" in src or "calc_hash" in src or any(isinstance(c, ast.Call) and isinstance(c.func, ast.Name) and c.func.id in out for c in ast.walk(fn))):
+            out.add(name)
+    # one more round for helpers that delegate to a normaliser
+    for name, fn in u.funcs.items():
+        if "." in name or name in out:
+            continue
+        src = norm(fn)
+        if "startswith('HASH(\"')" in src and any(isinstance(c, ast.Call) and isinstance(c.func, ast.Name) and c.func.id in out for c in ast.walk(fn)):
+            out.add(name)
+    return out
+
+
+def r03k(repo: Repo, chk: Check, R="R03.k"):
+    u = repo.mod("utils")
+    normalisers = _normalisers(repo)
+    if not normalisers:
+        raise AnalysisError("R03.k: no coercion function handling HASH(\"...\") spellings found in utils.py")
+    for fname in ("get_binop_instruction", "get_unop_instruction"):
+        rows, how, default = helper_rows(repo, "utils", fname)
+        for r in rows:
+            lam = None
+            if r.values is not TOP:
+                for v in r.values:
+                    if isinstance(v, tuple) and len(v) == 2 and isinstance(v[1], Lam):
+                        lam = v[1].node
+            if lam is None:
+                continue
+            params = [a.arg for a in lam.args.args]
+            raw = []
+            for nme in ast.walk(lam.body):
+                if isinstance(nme, ast.Name) and nme.id in params:
+                    # climb through the single-argument calls wrapping the parameter
+                    p, ok = nme, False
+                    while True:
+                        par = getattr(p, "parent", None)
+                        if isinstance(par, ast.Call) and len(par.args) == 1 and par.args[0] is p and isinstance(par.func, ast.Name):
+                            if par.func.id in normalisers:
+                                ok = True
+                            p = par
+                            continue
+                        break
+                    if not ok:
+                        raw.append(nme.id)
+            chk.judge(R, f"utils:{fname}:row {r.key!r} operands are normalised", not raw,
+                      f"the evaluator {norm(lam)} uses {sorted(set(raw))} as spelled: a HASH(\"...\") constant is the text 'HASH(\"...\")' in verbose mode and a number "
+                      f"in compact mode, so the folded result (and with it the branch that is kept) depends on the output mode",
+                      {"normalisers": sorted(normalisers)}, f"{u.path}:{lam.lineno} in {fname}")
